@@ -13,6 +13,12 @@
 (* arbitrary), and must pair every name with the digest of *its* bytes.      *)
 (* The ideal hash is the identity, so a listing is a set of <<path, content>>*)
 (* and the identifier of a directory object is the listing itself.           *)
+(*                                                                         *)
+(* Concretisation (harness): names whose tuple order and joined-path order   *)
+(* differ; a 4.4 MiB and a 1.1 MiB file (the pool finishes them out of       *)
+(* listing order); entries that are symbolic links to files kept elsewhere   *)
+(* (an Edit rewrites the file BEHIND the link); same-size edits a quarter of *)
+(* a second apart; the directory path spelled with a trailing separator.     *)
 (***************************************************************************)
 EXTENDS Naturals, FiniteSets, Sequences, SequencesExt, TLC
 
